@@ -13,6 +13,11 @@ pub mod c13;
 pub mod c14;
 pub mod c15;
 pub mod c16;
+pub mod c17;
+pub mod c18;
+pub mod c19;
+#[cfg(feature = "fs")]
+pub mod c20;
 
 pub trait Check: UnitRunner {
   fn id(&self) -> &'static str;
@@ -36,6 +41,9 @@ pub fn make(id: &str, tier: Tier) -> Option<Box<dyn Check>> {
     "C14" => Some(Box::new(c14::C14::new(tier))),
     "C15" => Some(Box::new(c15::C15::new(tier))),
     "C16" => Some(Box::new(c16::C16::new(tier))),
+    "C17" => Some(Box::new(c17::C17::new(tier))),
+    "C18" => Some(Box::new(c18::C18::new(tier))),
+    "C19" => Some(Box::new(c19::C19::new(tier))),
     _ => None,
   }
 }
